@@ -108,8 +108,12 @@ def o_c02(story, recs, report):
                         report("choose-went-elsewhere", f"choice {i} targets {target} but the first passage entered was {new[:1]}", k)
         # offered = enabled, recomputed for passage-level choices of parameterless passages when no hook ran
         if r["obs"][0] in ("ok", "bool") and v["pid"] in ps and not ps[v["pid"]].get("params"):
-            hooks_ran = any(x.startswith("H") for x in tr_of(v)[len(tr_of(b)):]) if b else False
-            if r["op"][0] in ("choose", "goto") and not hooks_ran and r["obs"][0] == "ok":
+            entered = tr_of(v)[len(tr_of(b)):] if b else []
+            hooks_ran = any(x.startswith("H") for x in entered)
+            # a passage reached by a jump from a parameterised passage is rendered while that passage's parameters are
+            # still in scope (one navigation = one scope lifetime): the recomputation below knows only the globals
+            scoped = any(ps.get(x, {}).get("params") for x in entered)
+            if r["op"][0] in ("choose", "goto") and not hooks_ran and not scoped and r["obs"][0] == "ok":
                 exp = expected_offer(story, v)
                 if exp is not None:
                     got = [c for c in v["choices"]]
